@@ -18,10 +18,10 @@ REFI = "Trusts the harness's reference unifier/interpreter (model/*.rs, small an
 # id -> (technique, level text, level note)
 TABLE = {
  "C01": (PBT + " against a reference Robinson unifier; exhaustive pairs of terms up to size 4 in thorough",
-         "Generated term pairs with prior bindings (mutation-derived so that unifiable, near-miss and occurs-check cases are frequent) are unified by State::unify and by queries; success, cycle-freedom, equality of both sides, most-generality (image isomorphic to the reference mgu; instances accepted, non-unifiers rejected) and symmetry are checked. A scale family does the same with one large dimension (spines of up to 400/2000 levels in six shapes, chains of up to 400 var-var equations in several posting orders). Exploration: agreement on everything generated, no proof.",
+         "Generated term pairs with prior bindings (mutation-derived so that unifiable, near-miss and occurs-check cases are frequent) are unified by State::unify and by queries; success, cycle-freedom, equality of both sides, most-generality (image isomorphic to the reference mgu; instances accepted, non-unifiers rejected) and symmetry are checked. A scale family does the same with one large dimension (spines of up to 400/1000 levels in six shapes, chains of up to 400 var-var equations in several posting orders). Exploration: agreement on everything generated, no proof.",
          REFI),
  "C02": (PBT + " against a reference interpreter with un-normalised disequalities, ground-instance membership, conjunct permutation, and an interpreter-free brute-force oracle for flat programs",
-         "Pure tree programs (==, !=, conde, fresh, subsuming-pair motif) are run and compared as multisets of ground-instance sets with the reference, tuple by tuple with `q == g` extensions, under permutations of every conjunction, and (flat programs) with brute-force evaluation over U^n. A scale family keeps up to 400/2000 disequalities alive in the store, with subsumption events and deciding bindings aimed at one stored constraint, judged by the ground formula. Exploration.",
+         "Pure tree programs (==, !=, conde, fresh, subsuming-pair motif) are run and compared as multisets of ground-instance sets with the reference, tuple by tuple with `q == g` extensions, under permutations of every conjunction, and (flat programs) with brute-force evaluation over U^n. A scale family keeps up to 400/1000 disequalities alive in the store, with subsumption events and deciding bindings aimed at one stored constraint, judged by the ground formula. Exploration.",
          REFI),
  "C03": (PBT + " with per-answer invariants (closedness, constraint relevance by own traversal) and a reference interpreter for sharing/distinctness of reified variables",
          "Every answer of generated list/compound programs is checked for `_`-only variables, constraints over answer variables only, LResult::constraints() completeness through lists and compounds, and equivalence with the reference answer; also for family S programs (library relations with their internal `_` and fresh variables) and for answers holding relation-built lists of hundreds of cells. Exploration.",
@@ -30,13 +30,13 @@ TABLE = {
          "Generated tree programs and flat CLP(FD) programs (with an inserted disjunction) are run as written and under up to 6 permutations of all goal lists and clause lists; answer multisets (instance-set equivalence / ground tuples) must agree; a scale family reorders programs with hundreds of disequalities, clauses, list cells or domain values. Exploration.",
          "Implementation compared with itself under reordering; no reference model needed."),
  "C05": (PBT + " against a reference depth-first interpreter, position by position, observed through a ticket fngoal (engine order) and at the iterator",
-         "Generated search programs (nested cond/conjunction/fresh/closure, list relations on literal lists) wrapped in dfs{}: the order in which states leave the depth-first block and the order at the iterator must both equal the reference's Prolog order. A scale family uses disjunctions of up to 400 clauses, chains of up to 200 binary choice points and recursive relations (also recursive-clause-first and non-tail-recursive ones) over literal lists of up to 400/2000 elements. Exploration.",
+         "Generated search programs (nested cond/conjunction/fresh/closure, list relations on literal lists) wrapped in dfs{}: the order in which states leave the depth-first block and the order at the iterator must both equal the reference's Prolog order. A scale family uses disjunctions of up to 400 clauses, chains of up to 200 binary choice points and recursive relations (also recursive-clause-first and non-tail-recursive ones) over literal lists of up to 400/1000 elements. Exploration.",
          REFI),
  "C06": (PBT + ": differential interleaving vs depth-first vs reference interpreter (finite trees); soundness of bounded prefixes of infinite streams against reference set semantics",
          "Finite search programs must have equal answer multisets under interleaving search, under dfs{} and in the reference; for programs with infinite producers ground instances of the first 25 answers must be solutions. The scale family of C05 is reused for the finite comparison. Exploration.",
          REFI),
  "C07": (PBT + ": bounded liveness in engine steps (step-counter hook): obligations from each branch run alone must appear in the whole disjunction within a generous step bound",
-         "Disjunctions mixing finite goals, infinite producers and silent divergers at several nesting positions; each branch's first answers (run alone) must be produced by the whole disjunction within 256x their cost + 10000 steps (10x confirm run). A scale family uses disjunctions of up to 200/600 branches and divergers buried below up to 400/2000 pending conjunctions. Decides starvation/divergence, not mere slowness. Exploration.",
+         "Disjunctions mixing finite goals, infinite producers and silent divergers at several nesting positions; each branch's first answers (run alone) must be produced by the whole disjunction within 256x their cost + 10000 steps (10x confirm run). A scale family uses disjunctions of up to 200/600 branches and divergers buried below up to 400/1000 pending conjunctions. Decides starvation/divergence, not mere slowness. Exploration.",
          "Needs the cfg-guarded step counter in StreamEngine::step; bounded liveness only."),
  "C08": (PBT + ": metamorphic relation between a committed-choice program and the program with the committed head (conda) or its first head answer re-imposed (condu/onceo); reference interpreter for conda and matcha/matchu",
          "conda/condu/onceo over generated heads with 0/1/many/lazy/infinite answers and generated rest goals; matcha/matchu built dynamically; conda over finite-domain posting sequences cut into prefix | head | rest; heads whose first answer needs up to millions of engine steps (scale). Exploration.",
@@ -51,7 +51,7 @@ TABLE = {
          "Programs where 0-4 states reach a project goal with non-relational fngoal bodies (also resumed later); multiset equality with the reference and no panic. The single-state cases are fully checked (also with alias chains and projected terms of hundreds of levels); multi-state cases hit C11-project-reached-twice. Exploration.",
          REFI),
  "C12": (PBT + ": metamorphic relation for-loop vs explicit per-element conjunction, plus reference interpreter (tree bodies)",
-         "everyg with collections of 0-4 terms (Vec and LTerm list), bodies over the loop variable, query variables and a body-local fresh variable on which the body may make its own choice (tree and FD bodies); a second family uses collections of up to 400/2000 elements. Exploration. The surface `for` form is covered by C14's compile pipeline.",
+         "everyg with collections of 0-4 terms (Vec and LTerm list), bodies over the loop variable, query variables and a body-local fresh variable on which the body may make its own choice (tree and FD bodies); a second family uses collections of up to 400/1000 elements. Exploration. The surface `for` form is covered by C14's compile pipeline.",
          REFI),
  "C13": ("property-based testing through a compile pipeline: generated match/matche/matcha/matchu programs are emitted as Rust source, compiled against the current tree in one cargo build, run, and compared with the reference evaluation of the documented expansion and with the dynamic build of the same AST",
          "700 (quick) / 12000 (thorough) generated pattern-matching programs per run exercise literal, [], `_`, proper/improper list and compound patterns, repeated names, `p1 | p2` alternatives, empty bodies, shadowing pattern variables; answers must equal the reference's as multisets. Exploration.",
@@ -72,13 +72,13 @@ TABLE = {
          "Every public FiniteDomain operation is compared with a BTreeSet model on millions of domain pairs in both representations and both argument orders, plus O(1) operations on extreme isize bounds, plus domains of up to 300/2000 elements near 0, 10^9, isize::MAX and isize::MIN; thorough also enumerates a finite sub-space completely. Exploration.",
          "Trusts std BTreeSet and the harness's small model; domains are non-empty."),
  "C19": (PBT + " against an integer-arithmetic fixpoint oracle; exhaustive enumeration of one constraint over all groundness patterns, posting orders and values -2..=2 in both tiers",
-         "plusz/timesz programs with bindings in every order, aliasing and chains: consistent => exactly the determined integers, inconsistent => no answer, 0*r=0 leaves r free, never a panic; undecided (algebra) cases get soundness only. Extra families: cascades of up to 400/2000 pending constraints posted along or against the value flow, and pending constraints followed by a disjunction whose branches bind and alias the operands. Exploration plus a completely enumerated sub-space.",
+         "plusz/timesz programs with bindings in every order, aliasing and chains: consistent => exactly the determined integers, inconsistent => no answer, 0*r=0 leaves r free, never a panic; undecided (algebra) cases get soundness only. Extra families: cascades of up to 400/1000 pending constraints posted along or against the value flow, and pending constraints followed by a disjunction whose branches bind and alias the operands. Exploration plus a completely enumerated sub-space.",
          "Trusts the 80-line arithmetic oracle in props/c19.rs."),
  "C20": (PBT + ": metamorphic relation compound program vs twin with every constructor encoded as a tagged proper list, plus reference interpreter",
          "==/!= programs over eight compound kinds (unnamed, named, same-shape-different-type, same-identifier-other-module, recursive typed, Option-typed field, Rust tuple) mixed with lists and literals, and CLP(FD) programs with compound query terms; answers under the encoding must equal the twin's. Exploration.",
          REFI),
  "C21": (PBT + " against structural equality on the AST and a Vec(+tail) model of the list API",
-         "Triples of related terms (clone, rebuilt copy, one-point mutation): ==, Hash consistency, and every list operation (constructors, iter, iter_mut, Index/IndexMut, extend, head/tail, predicates, contains, Display) against the model; also on spines of up to 400/2000 levels. Exploration.",
+         "Triples of related terms (clone, rebuilt copy, one-point mutation): ==, Hash consistency, and every list operation (constructors, iter, iter_mut, Index/IndexMut, extend, head/tail, predicates, contains, Display) against the model; also on spines of up to 400/1000 levels. Exploration.",
          "Trusts the harness's AST equality and its 40-line model."),
  "C22": (PBT + " with an instrumented User type: history invariants at probe goals after every goal, and reference path traces",
          "Generated programs run with a User type counting with_constraint/take_constraint/process_extension; balance with the store size is checked at a probe after every goal (also on failing branches), at the end of the body and after reification; extension bindings are checked against the substitution; probe traces and extension counts per answer against the reference path; a scale family keeps hundreds of constraints in the store (subsumption events included) or uses wide finite domains. Exploration.",
